@@ -11,23 +11,25 @@ import (
 func TestWorker(t *testing.T) {
 	core.Main(t, core.Engine{Name: "netsim", Campaigns: map[string]core.RunFunc{
 		"C01/paths":    runPaths,
-		"C02/paths":    runPaths,
-		"C03/paths":    runPaths,
-		"C07/paths":    runPaths,
-		"C22/paths":    runPaths,
 		"C01/tamper":   runTamper,
 		"C01/expiry":   runExpiry,
+		"C02/paths":    runPaths,
+		"C03/paths":    runPaths,
+		"C03/epic":     runEPIC,
 		"C04/tamper":   runTamper,
-		"C08/garbage":  runGarbage,
-		"C12/ohp":      runOHP,
-		"C07/ohp":      runOHP,
 		"C05/spoof":    runSpoof,
 		"C06/linktype": runLinkType,
-		"C11/ports":    runPorts,
-		"C17/config":   runConfig,
+		"C07/paths":    runPaths,
 		"C07/scmp":     runSCMP,
+		"C07/ohp":      runOHP,
+		"C08/garbage":  runGarbage,
 		"C09/scmp":     runSCMP,
 		"C10/scmp":     runSCMP,
 		"C10/expiry":   runExpiry,
+		"C11/ports":    runPorts,
+		"C12/ohp":      runOHP,
+		"C13/epic":     runEPIC,
+		"C17/config":   runConfig,
+		"C22/paths":    runPaths,
 	}})
 }
